@@ -461,7 +461,7 @@ func JoinSliceItem(id, a string, str bool) FItem {
 	if str {
 		fmt.Fprintf(&body, "\t\tfor n := -1; n <= 6; n++ {\n\t\t\tvar list []string\n\t\t\tif n >= 0 {\n\t\t\t\tlist = make([]string, n)\n\t\t\t}\n\t\t\twant := \"\"\n\t\t\tfor i := range list {\n\t\t\t\tlist[i] = mon.Strs[(i*7+n*3)%%len(mon.Strs)]\n\t\t\t\twant += list[i]\n\t\t\t}\n\t\t\tbefore := mon.CanonOf(list)\n\t\t\tmon.Same(t, fmt.Sprintf(\"join-string/len%%d\", n), deriveJoin%s(list), want)\n\t\t\tmon.Same(t, \"join-string/input-unmodified\", mon.CanonOf(list), before)\n\t\t}\n", id)
 	} else {
-		fmt.Fprintf(&body, "\t\tfor n := -1; n <= 5; n++ {\n\t\t\tfor variant := 0; variant < 4; variant++ {\n\t\t\t\tvar lol [][]%s\n\t\t\t\tif n >= 0 {\n\t\t\t\t\tlol = make([][]%s, n)\n\t\t\t\t}\n\t\t\t\tvar want []%s\n\t\t\t\tfor i := range lol {\n\t\t\t\t\tm := (i*3 + variant*2 + n) %% 4 // inner length 0..3, nil when variant says so\n\t\t\t\t\tif m == 0 && (variant+i)%%2 == 0 {\n\t\t\t\t\t\tcontinue // nil inner list\n\t\t\t\t\t}\n\t\t\t\t\tlol[i] = make([]%s, m, m+1)\n\t\t\t\t\tfor j := range lol[i] {\n\t\t\t\t\t\tlol[i][j] = mon.Arg[%s](t, i, j+variant)\n\t\t\t\t\t}\n\t\t\t\t\twant = append(want, lol[i]...)\n\t\t\t\t}\n\t\t\t\tbefore := mon.CanonOf(lol)\n\t\t\t\tcl := fmt.Sprintf(\"join-slice/outer%%d\", n)\n\t\t\t\tout := deriveJoin%s(lol)\n\t\t\t\tmon.Same(t, cl+\"/len\", len(out), len(want))\n\t\t\t\tfor i := 0; i < len(out) && i < len(want); i++ {\n\t\t\t\t\tmon.Same(t, cl+\"/element\", out[i], want[i])\n\t\t\t\t}\n\t\t\t\tif lol == nil {\n\t\t\t\t\tif out != nil {\n\t\t\t\t\t\tt.Bad(cl+\"/nil-for-nil\", \"join of a nil list of lists is not nil\")\n\t\t\t\t\t} else {\n\t\t\t\t\t\tt.Ok(cl + \"/nil-for-nil\")\n\t\t\t\t\t}\n\t\t\t\t}\n\t\t\t\tmon.Same(t, cl+\"/input-unmodified\", mon.CanonOf(lol), before)\n\t\t\t}\n\t\t}\n", a, a, a, a, a, id)
+		fmt.Fprintf(&body, "\t\tfor n := -1; n <= 5; n++ {\n\t\t\tfor variant := 0; variant < 4; variant++ {\n\t\t\t\tvar lol [][]%s\n\t\t\t\tif n >= 0 {\n\t\t\t\t\tlol = make([][]%s, n)\n\t\t\t\t}\n\t\t\t\tvar want []%s\n\t\t\t\tfor i := range lol {\n\t\t\t\t\tm := (i*3 + variant*2 + n) %% 4 // inner length 0..3, nil when variant says so\n\t\t\t\t\tif m == 0 && (variant+i)%%2 == 0 {\n\t\t\t\t\t\tcontinue // nil inner list\n\t\t\t\t\t}\n\t\t\t\t\tlol[i] = make([]%s, m, m+1)\n\t\t\t\t\tfor j := range lol[i] {\n\t\t\t\t\t\tlol[i][j] = mon.Arg[%s](t, i, j+variant)\n\t\t\t\t\t}\n\t\t\t\t\twant = append(want, lol[i]...)\n\t\t\t\t}\n\t\t\t\tbefore := mon.CanonOf(lol)\n\t\t\t\tcl := fmt.Sprintf(\"join-slice/outer%%d\", n)\n\t\t\t\tout := deriveJoin%s(lol)\n\t\t\t\tmon.Same(t, cl+\"/len\", len(out), len(want))\n\t\t\t\tfor i := 0; i < len(out) && i < len(want); i++ {\n\t\t\t\t\tmon.Same(t, cl+\"/element\", out[i], want[i])\n\t\t\t\t}\n\t\t\t\tif lol == nil {\n\t\t\t\t\tif out != nil {\n\t\t\t\t\t\tt.Bad(cl+\"/nil-for-nil\", \"join of a nil list of lists is not nil\")\n\t\t\t\t\t} else {\n\t\t\t\t\t\tt.Ok(cl + \"/nil-for-nil\")\n\t\t\t\t\t}\n\t\t\t\t}\n\t\t\t\tmon.Same(t, cl+\"/input-unmodified\", mon.CanonOf(lol), before)\n\t\t\t\tmon.NoteAlias(t, \"join-slice/result-aliases-an-input\", out, lol)\n\t\t\t}\n\t\t}\n", a, a, a, a, a, id)
 	}
 	kind := "join-slice"
 	if str {
